@@ -202,7 +202,8 @@ func checkC07(ctx *Ctx) *Result {
 		r.check(good, "R7.6", "Reconfigure", ctx.P.Pos(rc.Pos()), detail, len(mf.Paths))
 	}
 	wrapReturnsClosure(ctx, r, "R11.6")
-	// R7.5
+	// R7.5: a configuration is complete before it is published and never written afterwards
+	configFieldOwnership(ctx, r, "R7.5")
 	we := ctx.WE()
 	entries := []*ssa.Function{}
 	if cl != nil {
@@ -219,6 +220,9 @@ func checkC07(ctx *Ctx) *Result {
 			return rt.Kind == RLocal || rt.Kind == RConst || (rt.Kind == RCallRes && rt.Name == "invoke http.ResponseWriter.Header")
 		}, "writes memory that is shared with other requests or with the published configuration")
 	}
+	// ... nor is such memory handed to the wrapped handlers, which run
+	// concurrently and may write what they find in the response header map
+	r.share(checkC12(ctx), map[string]string{"R12.4": "slices shared between requests (package-level or held by the configuration) reach a response header map only on handler-free paths: no wrapped handler receives memory another request also holds"}, nil)
 	return r
 }
 
@@ -392,6 +396,8 @@ func checkC08(ctx *Ctx) *Result {
 		intRule(ctx, r, "R8.4")
 		// the predicates the origin table takes as given: "deemed insecure" and "public suffix"
 		patternPredicates(ctx, r, "R8.4")
+		// ... and "malformed pattern": the guards every accepted pattern has passed
+		r.share(checkC13(ctx), map[string]string{"R13.4": "every accepting path of ParsePattern has passed each documented guard (an invalid pattern makes Reconfigure fail)"}, nil)
 	}
 	return r
 }
@@ -703,6 +709,16 @@ func checkC09(ctx *Ctx) *Result {
 	checkDebugColours(ctx, r)
 	// SetDebug/Reconfigure must reach every handler Wrap ever returned
 	wrapReturnsClosure(ctx, r, "R11.6")
+	// "partial headers": in debug mode too, nothing is granted to an origin that
+	// did not pass the origin step
+	r.share(checkC03(ctx), map[string]string{
+		"R3.2": "(debug-mode paths) ACAO=* only under the allow-all atom; ACAO=echo only under Parse.ok ∧ Contains",
+		"R3.4": "(debug-mode paths) no Access-Control-* header on a path without the allowed-origin atoms",
+	}, func(o Obligation) bool {
+		return strings.Contains(o.Construct, " mw.debug") && !strings.Contains(o.Construct, "!mw.debug")
+	})
+	// the state machine advances: no method returns holding the lock
+	r.share(checkC07(ctx), map[string]string{"R7.2": "every lock acquired by Reconfigure, SetDebug, Config and the request closure is released on every path"}, nil)
 	return r
 }
 
